@@ -42,6 +42,49 @@
 #   * a[k][v] = x (row read, element written, row written back), `std::thread::scope(|s| BODY)` = BODY,
 #     `s.spawn(|| BLOCK)` = the computation of BLOCK as a value (res T), `h.join().unwrap()` = join_unwrap h.
 # Anything outside the subset raises TieBroken naming the construct -- never a silent approximation.
+#
+# Round four (package robust): CANONICALISATIONS -- source shapes that are equal by the semantics above are given the SAME Gallina
+# term, so that a behaviour-preserving rewrite of the source does not disturb the equality lemmas (findings/harmless-rewrites.md;
+# corpus and negative set under tools/rewrites/).  Each is an identity of the semantics the translation already commits to; none
+# accepts a construct the translator refused before by ignoring it, and a loop that does not meet the side conditions word for
+# word falls back to the previous translation (the table-driven `while`, which has no entry for it and therefore refuses).
+#   (C1) counter `while` = `for`.  With i : usize, H an expression that does not mention i:
+#           while i < H { BODY; i += 1; }   =   for i' in i..H { BODY[i'] };  i := max(i, H)
+#           while i < H { i += 1; BODY }    =   for k in i..H { let i = k + 1; BODY };  i := max(i, H)
+#           while i > L { i -= 1; BODY }    =   for i' in (L..i).rev() { BODY[i'] };  i := min(i, L)
+#        (`<=` as the inclusive range, `i != 0` as `i > 0`, the bound on either side of the comparison; `i = i + 1` as `i += 1`).
+#        Side conditions, all checked: BODY does not assign i (no assignment to it or to a place in it, no `&mut i`, no re-declaration)
+#        and, in the first form, contains no `continue` of this loop (it would skip the increment); H (resp. L) is INVARIANT in BODY:
+#        it reads no variable BODY assigns -- except the length of a list / the dimensions of a matrix that BODY changes only by
+#        writing single elements in place (upd keeps the length: Base/Panic.v upd_list_length; mset keeps rows and cols) -- and
+#        evaluating it assigns nothing.  Argument: the `while` evaluates H at the head of every pass, the first time exactly where
+#        the `for` evaluates its bound (immediately, nothing in between); if that evaluation panics both panic there; otherwise by
+#        invariance every later evaluation gives the same value h, so the passes are i0, i0+1, .., h-1 (none if i0 >= h) with the
+#        counter equal to the loop variable in BODY, and the counter ends as max(i0, h).  Down-counting: passes i0-1, .., L (none if
+#        i0 <= L), the checked subtraction `i -= 1` cannot underflow because i > L >= 0 was just tested.  usize `+ 1` is unbounded
+#        in the model as everywhere else.  The final value is bound by a `let` after the loop unless the counter is dead: declared by
+#        a `let` of the same block and not mentioned after the loop (then its scope ends with the block).  A `while` the table has
+#        an entry for is never canonicalised (the table wins), and canonicalised loops do not take part in the table's numbering.
+#   (C2) for K in 0..N { let I = N - 1 - K; BODY }  =  for I in (0..N).rev() { BODY }   when K does not occur in BODY, BODY does not
+#        assign I, N mentions neither and is invariant in BODY (as in C1): in pass K < N both checked subtractions succeed (N >= 1,
+#        K <= N - 1) and I = N-1, .., 0 in this order; N is evaluated once by the range in both versions.
+#   (C3) conditionals in canonical orientation: an `if` WITH a non-empty else arm whose condition is `!c` is the `if` on c with the
+#        arms exchanged; and when both operands are usize / isize (or bool for `!=`), `a != b`, `a >= b`, `a > b` become `a == b`,
+#        `a < b`, `a <= b` with the arms exchanged.  These are total orders with decidable equality; NEVER applied to element
+#        (floating-point) operands, where NaN makes `a >= b` differ from `!(a < b)`.  An `if` without else (every guard) is untouched.
+#   (C4) a value `if` in tail position whose arms are blocks: each arm is translated with the continuation of the enclosing block,
+#        which is what `if c { return a; } rest` already produced for the first arm: `if c { a } else { rest }` is the same term.
+#   (C5) an empty vector (`vec![]`, `Vec::new()`, `Vector::empty()`) whose element type the table does not give by NAME is typed
+#        by the first `.push(x)` on it (rename-proof); a wrong guess cannot go unnoticed: the Gallina file would not type-check.
+#   (C6) a call `x.helper(args);` in statement position of a method that is not in the call table but is defined in the SAME impl
+#        block, returns (), has no `return`, and whose `&mut` arguments are all `&mut <variable>`, is the block
+#        { let p1 = arg1; ..; BODY[self := x; q := the variable passed for the `&mut` parameter q] } with every binder of BODY renamed
+#        apart (no capture): receiver and arguments are evaluated left to right before the body, `&mut` parameters are exclusive
+#        borrows of the caller's variables (no aliasing in safe Rust), shared borrows cannot be mutated during the call, so copying
+#        them is unobservable.  Nesting depth at most 3 (recursion is refused).  A helper that is in the table keeps its table entry.
+# Not canonicalised on purpose (they remain noise, see the findings file): the ORDER of the loop-state tuple (declaration order:
+# exchanging two `let`s of loop-carried variables permutes it), statement order, boolean algebra (De Morgan), `while i != H`,
+# hoisting / inlining of fallible reads (they change the evaluation order of possible panics, which only a proof can discharge).
 import re
 try:
     from translate import TieBroken
@@ -644,11 +687,21 @@ class Env:
             if v.name not in seen: seen.add(v.name); out.append(v)
         return list(reversed(out))
 
+class ModList(list):
+    pass
+
+class Rec(set):
+    """the variables a piece of code assigns; .shape: those assigned otherwise than by writing one element in place
+    (v[i] = x / m[(i,j)] = x on the variable itself: upd / mset, which keep length resp. rows, cols)"""
+    def __init__(self): set.__init__(self); self.shape = set()
+
 class Ctx:
     def __init__(self, ret, cont, records, ret_raw=None):
         self.ret, self.cont, self.records, self.ret_raw = ret, cont, records, ret_raw
-    def note(self, v):
-        for r in self.records: r.add(v)
+    def note(self, v, elem_only=False):
+        for r in self.records:
+            r.add(v)
+            if not elem_only and isinstance(r, Rec): r.shape.add(v)
     def sub(self, ret=None, cont=None, record=None, ret_raw=None):
         return Ctx(ret or self.ret, cont or self.cont, self.records + ([record] if record is not None else []), ret_raw or self.ret_raw)
 
@@ -781,6 +834,23 @@ def pat_binds(pat, name):
     if pat[0] == "ptuple": return any(pat_binds(q, name) for q in pat[1])
     if pat[0] == "pctor": return pat_binds(pat[2], name)
     return False
+
+def rename_vars(node, mapping):
+    """consistent renaming of variables (uses and binders) in a piece of syntax"""
+    if isinstance(node, tuple):
+        if node and node[0] == "var" and len(node) == 2: return ("var", mapping.get(node[1], node[1]))
+        if node and node[0] == "pvar" and len(node) == 3: return ("pvar", mapping.get(node[1], node[1]), node[2])
+        return tuple(rename_vars(x, mapping) for x in node)
+    if isinstance(node, list): return [rename_vars(x, mapping) for x in node]
+    return node
+
+def binders_of(node, acc):
+    if isinstance(node, tuple):
+        if node and node[0] == "pvar" and len(node) == 3 and node[1][:1].islower(): acc.add(node[1])
+        for x in node: binders_of(x, acc)
+    elif isinstance(node, list):
+        for x in node: binders_of(x, acc)
+    return acc
 
 def is_one(e):
     e = unparen(e)
@@ -1319,7 +1389,7 @@ class Translator:
                 direct = self.tb.FIELDS.get((owner.ty, base[2]), ("", ""))[0] == "{0}" if base[0] == "field" else base[0] == "var"
                 if direct and cur == owner.g:                  # x[i] = v  /  x.vec[i] = v : the owner is the list itself
                     B.append(("bind", ("v", owner.g), ("app", "upd", [g_raw(cur), g_raw(i), g_raw(val)])))
-                    self.ctx.note(owner); return
+                    self.ctx.note(owner, elem_only=True); return
                 v = self.fresh("b")
                 B.append(("bind", ("v", v), ("app", "upd", [g_raw(cur), g_raw(i), g_raw(val)])))
                 self.assign_place(base, v, bty, env, B); return
@@ -1330,7 +1400,7 @@ class Translator:
                 i, ti = self.ex(idx[1][0], env, B); j, tj = self.ex(idx[1][1], env, B)
                 if tval != "elem": self.bad("a %s stored into a matrix" % (tval,))
                 B.append(("bind", ("v", owner.g), ("app", "mset", [g_raw(owner.g), g_raw(i), g_raw(j), g_raw(val)])))
-                self.ctx.note(owner); return
+                self.ctx.note(owner, elem_only=True); return
             self.bad("assignment through an index into a value of type %s" % (bty,))
         if p[0] == "field":
             base = strip(p[1])
@@ -1351,7 +1421,7 @@ class Translator:
         return [v.g for v in M]
     def assigned_in(self, run, env):
         """dry run of a piece of translation to find which outer variables it assigns (in declaration order)"""
-        rec = set()
+        rec = Rec()
         saved_n, saved_ctx, saved_k = self.n, self.ctx, set(getattr(self, "killed", ()))
         try:
             run(rec)
@@ -1399,6 +1469,9 @@ class Translator:
                 B = []; v = self.ex(e[1], env, B); return wrap(B, self.ctx.ret(env, v))
             if e[0] == "cont_expr": return self.ctx.cont(env)
             if e[0] == "block": return self.block(e[1], env, lambda env2, v: rest(env.merge(env2)))
+            if e[0] == "mcall":
+                blk = self.inline_helper(e, env)
+                if blk is not None: return self.inlined(blk, env, lambda env2, v: rest(env.merge(env2)))
             B = []
             if e[0] == "mcall": t, ty = self.mcall(e, env, B, stmt=True)
             else: t, ty = self.ex(e, env, B)
@@ -1453,11 +1526,60 @@ class Translator:
             env_s, xv = env.declare(some[0][0][2][1], self.gname(some[0][0][2][1]), ts[1])
             return wrap(B, ("match", sc, [("Some %s" % xv.g, self.tail_expr(some[0][1], env_s, k)),
                                           ("None", self.tail_expr(none[0][1], env, k))]))
+        if e[0] == "mcall":
+            blk = self.inline_helper(e, env)
+            if blk is not None: return self.inlined(blk, env, lambda env2, v: k(env.merge(env2), None))
         B = []
         if e[0] == "mcall": v = self.mcall(e, env, B, stmt=True)
         else: v = self.ex(e, env, B)
         if v[1] == "unit": v = None
         return wrap(B, k(env, v))
+
+    # ------------------------------------------------------------------ private helper methods are inlined (see the header)
+    def inlined(self, blk, env, k):
+        self.inline_depth = getattr(self, "inline_depth", 0) + 1
+        try:
+            return self.block(blk, env, k)
+        finally:
+            self.inline_depth -= 1
+
+    def inline_helper(self, e, env):
+        """x.helper(args) as a statement, where `helper` is not in the call table but is a method of the same impl block, returns
+        (), contains no `return`, and every `&mut` argument is `&mut <variable>`:  the block
+             { let p1 = arg1; ..; BODY[self := x, q := the variable passed for a `&mut` parameter q] }
+        with all binders of BODY renamed apart.  None when the call is not of this kind (the call table applies, or refuses)."""
+        recv, name, args = e[1], e[2], e[3]
+        items, hdr = getattr(self, "items", None), getattr(self, "impl_header", None)
+        if items is None or hdr is None or getattr(self, "inline_depth", 0) >= 3: return None
+        rv = strip(recv)
+        if rv[0] != "var" or env.lookup(rv[1]) is None: return None
+        tr = env.lookup(rv[1]).ty
+        if tr != self.selfty or not isinstance(tr, str): return None
+        key = (tr, name, len(args))
+        if self.spec.get("methods", {}).get(key) or self.tb.METHODS.get(key): return None
+        if name in ("clone", "to_owned", "to_vec", "collect", "position", "unwrap", "spawn", "join", "sort_by_key", "iter", "map"): return None
+        cands = [f for it in items if it[0] == "impl" and _norm(it[1]) == _norm(hdr) for f in it[2] if f[1] == name]
+        if len(cands) != 1: return None
+        fn = cands[0]
+        params = fn[2]
+        if not params or params[0][0] != "self" or fn[3] is not None or len(params) - 1 != len(args): return None
+        body = fn_body_ast(fn, "%s (inlined into %s)" % (name, self.what))
+        if contains_return(body): return None
+        self.inline_count = getattr(self, "inline_count", 0) + 1
+        suffix = "__h%d" % self.inline_count
+        mapping = {b: b + suffix for b in binders_of(body, set())}
+        if rv[1] != "self": mapping["self"] = rv[1]
+        lets = []
+        for (pname, pty, pmut), a in zip(params[1:], args):
+            if pty.replace(" ", "").startswith("&mut"):
+                au = unparen(a)
+                if not (au[0] == "un" and au[1] == "&mut" and unparen(au[2])[0] == "var" and env.lookup(unparen(au[2])[1]) is not None): return None
+                mapping[pname] = unparen(au[2])[1]
+            else:
+                mapping[pname] = pname + suffix
+                lets.append(("let", ("pvar", pname + suffix, pmut), pty, a))
+        body2 = rename_vars(body, mapping)
+        return ("blk", lets + list(body2[1]), body2[2])
 
     def let_stmt(self, s, env, rest):
         pat, ty, e = s[1], s[2], s[3]
@@ -1706,7 +1828,7 @@ class Translator:
     # ------------------------------------------------------------------ canonicalisation of counter loops (see the header)
     def dry(self, run):
         """run a piece of translation for its effects on a recorder only: returns the set of variables it assigns"""
-        rec = set()
+        rec = Rec()
         saved = (self.n, self.ctx, set(getattr(self, "killed", ())), getattr(self, "nwhile", 0))
         try:
             self.ctx = self.ctx.sub(record=rec, cont=lambda env2: g_ok(g_raw("tt")))
@@ -1719,13 +1841,42 @@ class Translator:
         """the outer variables a loop body assigns, `var` being its (usize) loop variable"""
         env_i, iv = env.declare(var, self.gname(var), "usize")
         rec = self.dry(lambda: self.block(body, env_i, lambda env2, v: g_ok(g_raw("tt"))))
-        return [v for v in env.visible() if v in rec]
+        M = ModList(v for v in env.visible() if v in rec)
+        M.shape = set(rec.shape)
+        return M
+
+    def shape_reads_only(self, e, name, env):
+        """every occurrence of the variable in the expression is under .len() / .size() (a list, possibly through a transparent
+        wrapper field such as Vector.vec) or .rows() / .cols() / .rows / .cols (a matrix)"""
+        def count(n):
+            if isinstance(n, tuple):
+                return (1 if n[:1] == ("var",) and len(n) == 2 and n[1] == name else 0) + sum(count(x) for x in n[1:])
+            if isinstance(n, list): return sum(count(x) for x in n)
+            return 0
+        def base_is_var(b):
+            b = strip(b)
+            while b[0] == "field" and (self.tb.FIELDS.get((self.type_of(b[1], env), b[2])) or ("", ""))[0] == "{0}": b = strip(b[1])
+            return b == ("var", name)
+        def shape(n):
+            if isinstance(n, tuple):
+                here = 0
+                if n[:1] == ("mcall",) and not n[3] and base_is_var(n[1]):
+                    t = self.type_of(n[1], env)
+                    if (isinstance(t, str) and t in LISTS and n[2] in ("len", "size")) or (t == "mat" and n[2] in ("rows", "cols")): here = 1
+                elif n[:1] == ("field",) and n[2] in ("rows", "cols") and strip(n[1]) == ("var", name) and self.type_of(n[1], env) == "mat": here = 1
+                return here if here else sum(shape(x) for x in n[1:])
+            if isinstance(n, list): return sum(shape(x) for x in n)
+            return 0
+        return count(e) == shape(e)
 
     def invariant_in(self, e, env, M):
-        """the expression reads none of the variables M and evaluating it assigns nothing: it has the same value (or the same
-        panic) whenever it is evaluated while only the variables M change"""
+        """the expression has the same value (or the same panic) whenever it is evaluated while only the variables M change: it reads
+        none of them -- except the length of a list / the dimensions of a matrix that the code only changes by writing single
+        elements in place (upd keeps the length, mset keeps rows and cols) -- and evaluating it assigns nothing"""
         for x in vars_of(e):
-            if env.lookup(x) is not None and env.lookup(x) in M: return False
+            v = env.lookup(x)
+            if v is not None and v in M:
+                if v in getattr(M, "shape", M) or not self.shape_reads_only(e, x, env): return False
         return not self.dry(lambda: self.ex(e, env, []))
 
     def type_of(self, e, env):
@@ -1893,6 +2044,7 @@ class Translator:
     def function(self, fn, impl_header):
         """fn = ('fn', name, params, ret, body) -> (signature text, body term, info)"""
         spec = self.spec
+        self.impl_header = impl_header
         self.selfty = spec.get("selfty") or self.infer_selfty(impl_header)
         env = Env()
         gparams, mutparams = [], []
